@@ -172,7 +172,10 @@ class BufferedReader:
                     yield self._buffer[:pos]
                 return
 
-        yield self._buffer
+        output = self._buffer
+        self._buffer = b''
+        self._buffer_len = 0
+        yield output
 
     async def _consume_delimiter(self, delimiter: bytes) -> None:
         delimiter_len = len(delimiter)
